@@ -90,7 +90,9 @@ def make_env(root, spec):
     pls = payloads()
     env = Env()
     for name, status, outdir, pkind, version in spec:
-        ent = {'status': TaskStatus[status], 'payload': pls[pkind], 'version': version, 'start_clock': 1.0, 'end_clock': 2.0}
+        # 'DONE-int': the status is the plain integer 3, which the Env API (get_status / is_done) reads as DONE
+        ent = {'status': int(TaskStatus.DONE) if status == 'DONE-int' else TaskStatus[status], 'payload': pls[pkind], 'version': version,
+               'start_clock': 1.0, 'end_clock': 2.0}
         if outdir:
             ent['output_dir'] = os.path.join(root, name)
         env[name] = ent
@@ -100,7 +102,7 @@ def make_env(root, spec):
 def expected(root, spec):
     """Reference: name -> snapshot of the entry, for DONE tasks with an output directory."""
     env = make_env(root, spec)
-    return {name: deepsnap(env[name]) for name, status, outdir, _, _ in spec if status == 'DONE' and outdir}
+    return {name: deepsnap(env[name]) for name, status, outdir, _, _ in spec if status in ('DONE', 'DONE-int') and outdir}
 
 
 def do_write(root, spec):
@@ -152,6 +154,8 @@ def env_alphabet(tier):
     out.append((('t0', 'DONE', True, 'dataset', 1), ('t1', 'DONE', False, 'int', 1), ('t2', 'FAILED', True, 'array', 1)))
     # task names with a path separator (CheckoutTask / BuildTask accept them): the output directory is nested below the root
     out.append((('sub/t0', 'DONE', True, 'nested', 1),))
+    out.append((('t0', 'DONE-int', True, 'nested', 1),))
+    out.append((('t0', 'DONE-int', True, 'int', 1), ('t1', 'FAILED', True, 'int', 1), ('t2', 'DONE', True, 'int', 1)))
     out.append((('sub/t0', 'DONE', True, 'int', 1), ('t1', 'DONE', True, 'nested', 1), ('sub/deep/t2', 'FAILED', True, 'int', 1)))
     if tier == 'thorough':
         for sts in itertools.product(statuses[:3], repeat=3):
